@@ -9,6 +9,8 @@
 
    Clauses (first failing one is reported):
      KnownValue            the observed value is one of the planted values
+     OnlyListedSources     the value does not come from a config file outside the statement's list of sources
+                           (the harness plants one in the parent of the working directory, outside HOME)
      IsolatedFromOthers    the observed value comes from a layer on this file's own chain
      LastSetterWins        ... and from the *last* layer of the chain that sets the key
    each suffixed with the channel it was observed on: Core/Section x Object/Behaviour.               *)
@@ -22,7 +24,9 @@ T  == Traces[tid]
 Ev == T.events[pc + 1]
 AssignOf(t) == [k \in Keys |-> ToSet(t.assign[k])]
 
-Known == Sources \cup {"default"}
+\* "above" = a config file in the parent of the working directory (outside HOME): not a source of the
+\* statement's list, hence on no file's chain
+Known == Sources \cup {"default", "above"}
 \* channel name, key, observed layer name
 Channels == <<[n |-> "CoreObject",        k |-> "c", v |-> Ev.obj_c],
               [n |-> "SectionObjectRule", k |-> "s", v |-> Ev.obj_s_rule],
@@ -31,6 +35,7 @@ Channels == <<[n |-> "CoreObject",        k |-> "c", v |-> Ev.obj_c],
               [n |-> "SectionBehaviourRule", k |-> "s", v |-> Ev.beh_s_rule],
               [n |-> "SectionBehaviourCtx",  k |-> "s", v |-> Ev.beh_s_ctx]>>
 ChClause(ch) == IF ch.v \notin Known THEN "KnownValue"
+                ELSE IF ch.v = "above" THEN "OnlyListedSources"
                 ELSE IF ~OnChain(Ev.file, mode, ch.v) THEN "IsolatedFromOthers"
                 ELSE IF ch.v # Effective(Ev.file, ch.k) THEN "LastSetterWins"
                 ELSE "ok"
